@@ -17,10 +17,20 @@ from ._higherorder import (
 from ._impl import Matcher, Mismatch
 
 
+def _sorted_keys(keys):
+    """The keys in sorted order, also when they are of types that do not compare."""
+    keys = list(keys)
+    try:
+        return sorted(keys)
+    except TypeError:
+        return sorted(keys, key=lambda key: (type(key).__name__, repr(key)))
+
+
 def LabelledMismatches(mismatches, details=None):
     """A collection of mismatches, each labelled."""
     return MismatchesAll(
-        (PrefixedMismatch(k, v) for (k, v) in sorted(mismatches.items())), wrap=False
+        (PrefixedMismatch(k, mismatches[k]) for k in _sorted_keys(mismatches)),
+        wrap=False,
     )
 
 
@@ -56,8 +66,8 @@ class DictMismatches(Mismatch):
         lines = ["{"]
         lines.extend(
             [
-                f"  {key!r}: {mismatch.describe()},"
-                for (key, mismatch) in sorted(self.mismatches.items())
+                f"  {key!r}: {self.mismatches[key].describe()},"
+                for key in _sorted_keys(self.mismatches)
             ]
         )
         lines.append("}")
@@ -254,8 +264,8 @@ class KeysEqual(Matcher):
     def match(self, matchee):
         from ._basic import _BinaryMismatch, Equals
 
-        expected = sorted(self.expected)
-        matched = Equals(expected).match(sorted(matchee.keys()))
+        expected = _sorted_keys(self.expected)
+        matched = Equals(expected).match(_sorted_keys(matchee.keys()))
         if matched:
             return AnnotatedMismatch(
                 "Keys not equal", _BinaryMismatch(expected, "does not match", matchee)
